@@ -194,6 +194,8 @@ def _sessions(tier, seed, rnd, locs):
         shorts.append([["set", "en"], ["set", name], r1[i % 3]])
         shorts.append([["set", locs[(i * 5 + seed) % len(locs)]], ["set", name], r1[(i + 1) % 3], ["get"]])
         shorts.append([["set", "en"], ["setbad", ["none", "int", "bytes", "list"][i % 4]], r1[(i + 2) % 3], ["get"]])
+        # a rejected pendulum.locale(name) must not leave anything behind in Locale._cache that makes the same name acceptable (or fatal) later
+        shorts.append([["set", "en"], ["load", name], ["set", name], ["load", name], r1[i % 3], ["get"]])
     out = shorts + out
     # random histories
     n = 40 if tier == "quick" else 600
@@ -1262,7 +1264,8 @@ LEVEL_TEXT = ("Machine-checked Coq theorems over the generated tables of ALL shi
               "histories (a rejected set_locale keeps the configuration, the configuration is the last successfully set name and always loads, rendering with the ambient "
               "locale is total after EVERY history, results with an explicit locale are independent of the history); DateTime.diff_for_humans(other) end to end on the C06 "
               "precise_diff models (total; direction proved for different tzinfo objects or equal offsets, refuted inside a repeated hour; magnitude refuted for second "
-              "occurrences and for the compiled helper's mis-carried UTC shift — three listed findings with machine-checked witnesses); the two data defects found here (zh {time} templates, nl week_data) were repaired by fix: commits "
+              "occurrences and for the compiled helper's mis-carried UTC shift — three listed findings with machine-checked witnesses — and PROVED within one unit of the "
+              "true elapsed time for zero-offset pairs less than a day apart, both backends, through C06's characterisation of precise_diff); the two data defects found here (zh {time} templates, nl week_data) were repaired by fix: commits "
               "in /repo, the statements are now proved at full strength and the defects are reported as violations if they return. Exhaustive correspondence model = implementation, string for string.")
 DESIGN_REF = "DESIGN.md section 4 C18"
 LEVEL_NOTE = ("Trusted: Coq kernel+VM, the generator g30_locales (ast -> Gallina tables; str.format field parsing by string.Formatter), the hand model of the key construction "
